@@ -22,7 +22,7 @@ Ent(lo, hi, key, t) == [k |-> "ent", lo |-> lo, hi |-> hi, key |-> key, t |-> t]
 NoKey == [kk |-> "none"]
 Bare(n, cp) == [kk |-> "bare", n |-> n, cp |-> cp]
 KType(t, cut) == [kk |-> "type", t |-> t, cut |-> cut]
-SubE(lo, hi, galts) == [k |-> "sub", lo |-> lo, hi |-> hi, g |-> [galts |-> galts]]
+SubEnt(lo, hi, galts) == [k |-> "sub", lo |-> lo, hi |-> hi, g |-> [galts |-> galts]]
 NameE(lo, hi, n) == [k |-> "name", lo |-> lo, hi |-> hi, n |-> n, args |-> <<>>]
 ArrT(galts) == [k |-> "arr", g |-> [galts |-> galts]]
 MapT(galts) == [k |-> "map", g |-> [galts |-> galts]]
@@ -33,23 +33,27 @@ GRule(n, e) == [name |-> n, kind |-> "group", op |-> "=", params |-> <<>>, e |->
 IntT == Ty(<<Ref("int")>>)  TstrT == Ty(<<Ref("tstr")>>)
 A == <<97>>  B == <<98>>
 
-Base == {
+BaseSchemas == {
   <<Rule("root", Ty(<<ArrT(<< <<Ent(0, -1, NoKey, Ty(<<Ref("t1")>>))>> >>)>>)), Rule("t1", Ty(<<Ref("int"), Ref("tstr")>>))>>,
   <<Rule("root", Ty(<<MapT(<< <<Ent(1, 1, Bare("a", A), IntT), Ent(0, 1, Bare("b", B), TstrT)>> >>)>>))>>,
-  <<Rule("root", Ty(<<MapT(<< <<NameE(1, 1, "g1")>> >>)>>)), GRule("g1", SubE(1, 1, << <<Ent(1, 1, Bare("a", A), IntT)>>, <<Ent(1, 1, Bare("b", B), TstrT)>> >>))>>,
+  <<Rule("root", Ty(<<MapT(<< <<NameE(1, 1, "g1")>> >>)>>)), GRule("g1", SubEnt(1, 1, << <<Ent(1, 1, Bare("a", A), IntT)>>, <<Ent(1, 1, Bare("b", B), TstrT)>> >>))>>,
   <<Rule("root", Ty(<<RefA("p", <<Ref("int")>>)>>)), RuleP("p", <<"T">>, Ty(<<ArrT(<< <<Ent(0, -1, NoKey, Ty(<<Ref("T")>>))>> >>)>>))>>,
-  <<Rule("root", Ty(<<ArrT(<< <<NameE(1, 2, "g1")>> >>)>>)), GRule("g1", SubE(1, 1, << <<Ent(1, 1, NoKey, IntT), Ent(0, 1, NoKey, TstrT)>> >>))>>,
-  <<Rule("root", Ty(<<Ref("t1")>>)), Rule("t1", IntT), [Rule("t1", Ty(<<Ref("tstr"), Ref("nil")>>)) EXCEPT !.op = "/=">>,
+  <<Rule("root", Ty(<<ArrT(<< <<NameE(1, 2, "g1")>> >>)>>)), GRule("g1", SubEnt(1, 1, << <<Ent(1, 1, NoKey, IntT), Ent(0, 1, NoKey, TstrT)>> >>))>>,
+  <<Rule("root", Ty(<<Ref("t1")>>)), Rule("t1", IntT), [Rule("t1", Ty(<<Ref("tstr"), Ref("nil")>>)) EXCEPT !.op = "/="]>>,
   <<Rule("root", Ty(<<[k |-> "ctl", op |-> "size", t |-> Ref("uint"), arg |-> Lit(I(1))], [k |-> "range", lo |-> Lit(I(300)), hi |-> Lit(I(400)), incl |-> TRUE], Lit(Tx(A))>>))>>,
   <<Rule("root", Ty(<<MapT(<< <<Ent(0, -1, KType(Ref("tstr"), FALSE), IntT)>> >>)>>))>>,
   <<Rule("root", Ty(<<RefA("m", <<Ref("int"), Ref("tstr")>>)>>)),
     RuleP("m", <<"K", "V">>, Ty(<<MapT(<< <<Ent(1, 1, Bare("a", A), Ty(<<Ref("K")>>)), Ent(1, 1, Bare("b", B), Ty(<<Ref("V")>>))>> >>)>>))>>,
   <<Rule("root", Ty(<<ArrT(<< <<Ent(0, -1, NoKey, Ty(<<Ref("root")>>))>> >>), Ref("int")>>))>>,
-  <<Rule("root", Ty(<<ArrT(<< <<Ent(1, 1, NoKey, IntT)>>, <<Ent(1, 1, NoKey, TstrT), Ent(0, 1, NoKey, TstrT)>> >>)>>)), Rule("u1", IntT)>>
+  <<Rule("root", Ty(<<ArrT(<< <<Ent(1, 1, NoKey, IntT)>>, <<Ent(1, 1, NoKey, TstrT), Ent(0, 1, NoKey, TstrT)>> >>)>>)), Rule("u1", IntT)>>,
+  <<Rule("root", Ty(<<MapT(<< <<Ent(1, 1, Bare("a", A), Ty(<<Ref("t1")>>)), Ent(0, 1, Bare("b", B), Ty(<<Ref("t2")>>))>> >>)>>)),
+    Rule("t1", IntT), Rule("t2", Ty(<<Ref("tstr"), Ref("t1")>>)), Rule("u1", TstrT)>>
 }
-Docs == {Mp(<<P(Tx(A), I(1))>>), Mp(<<P(Tx(B), Tx(A))>>), Mp(<<>>), Mp(<<P(Tx(A), I(1)), P(Tx(B), Tx(A))>>), Mp(<<P(Tx(B), Tx(A)), P(Tx(A), I(1))>>),
+DocSeq == <<Mp(<<P(Tx(A), I(1))>>), Mp(<<P(Tx(B), Tx(A))>>), Mp(<<>>), Mp(<<P(Tx(A), I(1)), P(Tx(B), Tx(A))>>), Mp(<<P(Tx(B), Tx(A)), P(Tx(A), I(1))>>),
          I(1), I(255), I(256), I(350), Tx(A), Tx(B), Nul, Arr(<<>>), Arr(<<I(1)>>), Arr(<<Tx(A)>>), Arr(<<I(1), Tx(A)>>), Arr(<<I(1), I(2)>>),
-         Arr(<<Tx(A), Tx(A)>>), Arr(<<Arr(<<>>)>>), Arr(<<I(1), Tx(A), I(2)>>), Arr(<<I(1), Tx(A), I(2), Tx(B)>>), Arr(<<Arr(<<I(1)>>), I(2)>>)}
+         Arr(<<Tx(A), Tx(A)>>), Arr(<<Arr(<<>>)>>), Arr(<<I(1), Tx(A), I(2)>>), Arr(<<I(1), Tx(A), I(2), Tx(B)>>), Arr(<<Arr(<<I(1)>>), I(2)>>)>>
+Docs == SeqSet(DocSeq)
+ASSUME PrintT("D " \o ToJson(DocSeq))
 
 \* ---- positions
 RECURSIVE PT(_,_), P1(_,_), PG(_,_), PE(_,_)
@@ -61,8 +65,7 @@ P1(t, p) == {p} \cup
     [] t.k = "ctl" -> P1(t.t, p \o <<"t">>) \cup P1(t.arg, p \o <<"arg">>)
     [] t.k = "ref" -> UNION {P1(t.args[i], p \o <<"args", i>>) : i \in 1..Len(t.args)}
     [] OTHER -> {}
-PG(g, p) == UNION {PE(g.galts[j][i], p \o <<"galts", j, i>>) : j \in 1..Len(g.galts), i \in 1..Len(g.galts[j])} \cup
-            UNION {{} : j \in {}}
+PG(g, p) == UNION {UNION {PE(g.galts[j][i], p \o <<"galts", j, i>>) : i \in 1..Len(g.galts[j])} : j \in 1..Len(g.galts)}
 PE(e, p) == {p} \cup
   CASE e.k = "ent" -> PT(e.t, p \o <<"t">>) \cup (IF e.key.kk = "type" THEN P1(e.key.t, p \o <<"key", "t">>) ELSE {})
     [] e.k = "sub" -> PG(e.g, p \o <<"g">>)
@@ -86,16 +89,16 @@ Cands(R) ==
   \cup {C("reorder", <<>>, "", 0, 0, 0, NoMap, Swap(Len(R), j)) : j \in 2..(Len(R) - 1)}
   \cup {C("remove", <<>>, "", 0, i, 0, NoMap, <<>>) : i \in 2..Len(R)}
 
-Init == S0 \in Base /\ S = S0 /\ hist = <<>>
+Init == S0 \in BaseSchemas /\ S = S0 /\ hist = <<>>
 Next == /\ Len(hist) < MaxDepth
         /\ \E c \in Cands(S) : /\ WF(S, Socks)
                                /\ Forward(c.kind, c.a, S, S')
                                /\ WF(S', Socks)
-                               /\ hist' = Append(hist, [kind |-> c.kind, a |-> c.a])
+                               /\ hist' = Append(hist, [kind |-> c.kind, a |-> c.a, s |-> S'])
         /\ UNCHANGED S0
 Spec == Init /\ [][Next]_<<S0, S, hist>>
 
 Transparent == \A v \in Docs : \A cx \in Readings(Fmt, {}) : Accepts(cx, S, v) = Accepts(cx, S0, v)
 Emit == PrintT("R " \o ToJson([s0 |-> S0, s |-> S, hist |-> hist,
-                               xs |-> [v \in Docs |-> Expected(Fmt, {}, S, v)]]))
+                               xs |-> [i \in 1..Len(DocSeq) |-> Expected(Fmt, {}, S, DocSeq[i])]]))
 =============================================================================
